@@ -31,7 +31,7 @@ def sh(cmd, cwd=None, env=None, timeout=3600):
 def demo():
     nbc = tempfile.mkdtemp(prefix="nbc_demo_")
     try:
-        rc, out = sh(f"/venv/bin/python {sd}/demo.py", cwd=wt, env={"NUMBA_CACHE_DIR": nbc, "PYTHONDONTWRITEBYTECODE": "1"},
+        rc, out = sh(f"/venv/bin/python {sd}/demo.py", cwd=wt, env={"NUMBA_CACHE_DIR": nbc, "PYTHONDONTWRITEBYTECODE": "1", "PYTHONPATH": wt},
                      timeout=1200)
     finally:
         shutil.rmtree(nbc, ignore_errors=True)
